@@ -46,7 +46,7 @@ Definition round_f64 (q : Q) : Q :=
       let k := (Z.log2 (Zpos n) - Z.log2 (Zpos (Qden q)))%Z in
       let e0 := (52 - k)%Z in
       let e := if Qle_bool (inject_Z (2 ^ 52)) (q * pow2 e0) then e0 else (e0 + 1)%Z in
-      inject_Z (round_half_even (q * pow2 e)) * pow2 (- e)
+      Qred (inject_Z (round_half_even (q * pow2 e)) * pow2 (- e))
   | _ => q                      (* 0 stays 0; negative inputs do not occur *)
   end.
 
@@ -186,8 +186,10 @@ Fixpoint searchsorted (rc : list Q) (r : Q) : nat :=
 (* precision[is_valid] = pr[rc_inds[is_valid]], 0 elsewhere *)
 Definition precision_at (env rc : list Q) (r : Q) : Q := nth (searchsorted rc r) env 0.
 
-Record voc_row := VR { vr_env : list Q; vr_inds : list nat; vr_precisions : list Q;
-                       vr_recall : Q; vr_ap : Q }.
+Record voc_row := VR { vr_env : list Q; vr_inds : list nat; vr_precisions : list Q; vr_recall : Q }.
+(* AP = precisions.mean(axis=1): a function of the row (not stored, so that evaluating the
+   model does not add up hundreds of rationals with 2^52-sized denominators) *)
+Definition vr_ap (r : voc_row) : Q := qmean (vr_precisions r).
 
 Definition voc_row_of (rnd : Q -> Q) (npig : nat) (ms : list Q) (rthrs : list Q) (t : Q) : voc_row :=
   let tps := tp_list t ms in
@@ -195,13 +197,16 @@ Definition voc_row_of (rnd : Q -> Q) (npig : nat) (ms : list Q) (rthrs : list Q)
   let rc := rc_list rnd npig tps in
   let env := envelope (pr_list tps fps) in
   let precs := map (precision_at env rc) rthrs in
-  VR env (map (searchsorted rc) rthrs) precs (last rc 0) (qmean precs).
+  VR env (map (searchsorted rc) rthrs) precs (last rc 0).
 
 (* sort the pairs by detection score, descending, stable *)
 Definition sort_by_score (det ms : list Q) : list Q :=
   map (fun i => nth i ms 0) (argsort_desc det).
 
-Record voc := VOC { voc_scores : list Q; voc_rows : list voc_row; voc_map : Q; voc_mar : Q }.
+Record voc := VOC { voc_scores : list Q; voc_rows : list voc_row }.
+(* mAP = precisions.mean(), mAR = recalls.mean() *)
+Definition voc_map (v : voc) : Q := qmean (concat (map vr_precisions (voc_rows v))).
+Definition voc_mar (v : voc) : Q := qmean (map vr_recall (voc_rows v)).
 
 (* None = the all-zero dictionary returned when there is no positive pair *)
 Definition voc_metrics (rnd : Q -> Q) (match_scores : list Q) (pps : list ppair) (n_fn : nat)
@@ -212,7 +217,7 @@ Definition voc_metrics (rnd : Q -> Q) (match_scores : list Q) (pps : list ppair)
       let ms := sort_by_score (map pp_score pps) match_scores in
       let npig := (length pps + n_fn)%nat in
       let rows := map (voc_row_of rnd npig ms rthrs) mthrs in
-      Some (VOC ms rows (qmean (concat (map vr_precisions rows))) (qmean (map vr_recall rows)))
+      Some (VOC ms rows)
   end.
 
 (* ---- mOKS, visibility ---- *)
@@ -281,9 +286,9 @@ Definition run (c : case) : result :=
 From SV Require Import Base.Render.
 From Coq Require Import String.
 Definition rrow (r : voc_row) : rdr :=
-  rpair (rpair (rlist rQ) (rlist rnat)) (rpair rQ rQ) ((vr_env r, vr_inds r), (vr_recall r, vr_ap r)).
+  rpair (rpair (rlist rQ) (rlist rnat)) rQ ((vr_env r, vr_inds r), vr_recall r).
 Definition rvoc (v : voc) : rdr :=
-  rpair (rpair (rlist rQ) (rlist rrow)) (rpair rQ rQ) ((voc_scores v, voc_rows v), (voc_map v, voc_mar v)).
+  rpair (rlist rQ) (rlist rrow) (voc_scores v, voc_rows v).
 Definition rquad (q : nat * nat * nat * nat) : rdr :=
   let '(a, b, c, d) := q in rlist rnat [a; b; c; d].
 Definition rreport (r : report) : rdr :=
